@@ -14,7 +14,7 @@ HTML_ONLY = [':checked', ':default', ':indeterminate', ':disabled', ':enabled', 
 def run(tier, seed):
     ck = Check(PID, tier, seed)
     rnd = ck.rnd
-    ck.proof = lib.proof_step('props/C11.v', matchcheck.MATCH_CONE + ['NsFacts.v', 'AttrPat.v'])
+    ck.proof = lib.proof_step('props/C11.v', matchcheck.MATCH_CONE + ['NsFacts.v', 'AttrPat.v', 'RunFacts.v', 'AttrFacts.v', 'AttrFactsIC.v'])
     ck.broken += ck.proof['broken']
     if not ck.proof['driver_ok']:
         ck.notes['driver'] = 'unavailable: model-side runs skipped, searching with the implementation-side oracles only'
